@@ -122,7 +122,39 @@ def event_list(quick):
                     evs.append(["nest", L, modes, fault, catch])
     evs += [["mkvjp"], ["callvjp"], ["callvjp_fault", 1], ["callvjp_fault", 2], ["mkhvp"], ["callhvp"], ["callhvp_fault", 1],
             ["rule_reenter", 1], ["rule_reenter", 2], ["fwd_reenter"], ["rule_reenter_fail"]]
+    evs += [["lib", k] for k in sorted(LIB_EVENTS)]
     return evs
+
+
+def _lib_events():
+    """Calls into the shipped rules that fail or degenerate on their own (no injected fault), and calls with other dtypes of
+    the shapes the canaries use: whatever they leave behind must not show in later results."""
+    Lb = lib()
+    ag, np, onp = Lb["autograd"], Lb["anp"], Lb["onp"]
+    f32 = lambda *sh: (onp.arange(int(onp.prod(sh)) or 1, dtype=onp.float32)[: int(onp.prod(sh)) or 1].reshape(sh) + onp.float32(0.3))
+
+    def errstate_raise():
+        with onp.errstate(all="raise"):
+            return ag.grad(lambda x: np.sum(np.log(x)))(onp.array([0.0, 1.0, 2.0]))
+    return {
+        "eigh_degenerate": lambda: ag.grad(lambda A: np.sum(np.linalg.eigh(A)[1]))(onp.eye(2)),
+        "eigh_degenerate3": lambda: ag.grad(lambda A: np.sum(np.linalg.eigh(A)[1] * onp.arange(9.0).reshape(3, 3)))(onp.diag([1.0, 1.0, 2.0])),
+        "inv_singular": lambda: ag.grad(lambda A: np.sum(np.linalg.inv(A)))(onp.zeros((2, 2))),
+        "cholesky_not_pd": lambda: ag.grad(lambda A: np.sum(np.linalg.cholesky(A)))(-onp.eye(2)),
+        "f32_shapes": lambda: [ag.grad(lambda x: np.sum(np.sin(x) * x))(f32(*sh)) for sh in [(3,), (2,), (), (2, 2)]],
+        "f16_c64_shapes": lambda: [ag.grad(lambda x: np.sum(x * x))(f32(3).astype(onp.float16)),
+                                   ag.grad(lambda x: np.real(np.sum(x * np.conj(x))))(f32(3).astype(onp.complex64)),
+                                   ag.jacobian(lambda x: np.sin(x))(f32(2)), ag.hessian(lambda x: np.sum(x ** 3))(f32(2))],
+        "errstate_raise": errstate_raise,
+        "sqrt_at_zero": lambda: ag.grad(lambda x: np.sum(np.sqrt(x)))(onp.array([0.0, 1.0, 4.0])),
+        "bad_shape_forward": lambda: ag.grad(lambda x: np.sum(np.dot(x, onp.ones(4))))(onp.ones(3)),
+        "int_argument": lambda: ag.grad(lambda x: x * 2.0)(3),
+        "fwd_inv_singular": lambda: ag.make_jvp(lambda A: np.linalg.inv(A))(onp.zeros((2, 2)))(onp.ones((2, 2)))[1],
+    }
+
+
+LIB_EVENTS = ["eigh_degenerate", "eigh_degenerate3", "inv_singular", "cholesky_not_pd", "f32_shapes", "f16_c64_shapes", "errstate_raise",
+              "sqrt_at_zero", "bad_shape_forward", "int_argument", "fwd_inv_singular"]
 
 
 def run_event(ev):
@@ -184,6 +216,8 @@ def run_event(ev):
                     return "none"
                 ARM["spec"] = ("rule", 9, ev[1])
                 return repr(float(STORE["hvp"](1.0)))
+            if kind == "lib":
+                return "VAL:" + repr(plain(_lib_events()[ev[1]]()))[:300]
             if kind == "rule_reenter":
                 f = lambda x: Lb["r"](x) * x
                 return repr(float(ag.grad(f)(1.1) if ev[1] == 1 else ag.grad(ag.grad(f))(1.1)))
@@ -252,6 +286,8 @@ def obs_matches_expected(ev, obs):
         return True, want       # nothing stored yet in this history
     if isinstance(want, str):
         return obs == want, want
+    if want is None and ev[0] == "lib":
+        return True, None       # no closed form: judged against the same call in a fresh interpreter
     try:
         got = float(obs)
     except ValueError:
@@ -282,6 +318,10 @@ def canaries():
         ("hessian", lambda: ag.hessian(lambda x: np.sum(x ** 3))(a3[:2]), [[6.0, 0.0], [0.0, 12.0]]),
         ("vjp_twice", lambda: (lambda v: (v(1.0), v(2.0)))(mkv()), (6.0, 12.0)),
         ("checkpoint", lambda: g(Lb["ck"])(0.7), math.cos(.7) * .7 + math.sin(.7)),
+        ("div_at_zero", lambda: g(lambda x: np.sum(np.sqrt(x)))(onp.array([0.0, 1.0, 4.0])), [math.inf, 0.5, 0.25]),
+        ("arr3_mixed", lambda: g(lambda x: np.sum(np.sin(x)) + x[0] * x[1])(a3 * 0.1), [math.cos(.1) + .2, math.cos(.2) + .1, math.cos(.3)]),
+        ("arr0d", lambda: g(lambda x: np.sin(x) * x[()])(onp.array(0.7)), math.cos(.7) * .7 + math.sin(.7)),
+        ("eigh", lambda: g(lambda A: np.sum(np.linalg.eigh(A)[1][:, 0] ** 2 * onp.array([1.0, 3.0])))(onp.array([[2.0, 0.5], [0.5, 1.0]])), None),
     ]
 
 
@@ -292,7 +332,11 @@ def plain(x):
     if isinstance(x, (tuple, list)):
         return [plain(v) for v in x]
     if isinstance(x, onp.ndarray):
+        if x.dtype != onp.float64:
+            return {"dtype": str(x.dtype), "value": repr(x.tolist())}
         return plain(x.tolist())
+    if isinstance(x, onp.generic) and x.dtype != onp.float64:
+        return {"dtype": str(x.dtype), "value": repr(x.item())}
     return repr(float(x))
 
 
@@ -314,6 +358,8 @@ def close(got, want):
     if isinstance(want, (tuple, list)):
         return isinstance(got, list) and len(got) == len(want) and all(close(a, b) for a, b in zip(got, want))
     try:
+        if math.isinf(want):
+            return float(got) == want
         return abs(float(got) - want) <= 1e-12 * (1 + abs(want))
     except (TypeError, ValueError):
         return False
@@ -511,7 +557,7 @@ def run(ctx):
     can0 = base["can"]
     # closed forms for the canaries in the pristine process (independent of any history)
     for name, _, want in canaries():
-        if not close(can0[name], want):
+        if want is not None and not close(can0[name], want):
             rep.violations.append(violation(PROP, "bfs", "canary:" + name, "-", "canary-wrong-in-pristine-process",
                                             dict(canary=name), dict(history=[], event=None), None, can0[name], want,
                                             "fresh interpreter: canary %s" % name))
